@@ -121,9 +121,10 @@ add("C16",
     "(float() as oracle), shunting-yard and command-array builder with the command dictionary. Theorems: for every printed tree "
     "(any size, any nesting) the shunting-yard returns the postfix form of the tree with +/- chains re-associated to the left; "
     "the builder returns a command array whose LAST row denotes exactly the postfix tree, constants being the literals in textual "
-    "order; the recovered tree means the printed tree in every algebra where a+(b+c)=(a+b)+c and a+(b-c)=(a+b)-c; "
-    "(character level, see DESIGN) the tokenizer maps the printed string to the printed tokens. With simplification the round "
-    "trip is REFUTED by a witness (known finding F3). Tie: tr_strings.py (templates, tables, pinned regex sources and tokenizer "
+    "order; the recovered tree means the printed tree in every algebra where a+(b+c)=(a+b)+c and a+(b-c)=(a+b)-c; at "
+    "character level the row-by-row printer prints the denoted tree and the tokenizer maps that string to exactly the printed "
+    "tokens, so print -> parse is proved end to end for every scoped stack over the template operators with finite constants. "
+    "With simplification the round trip is REFUTED by a witness (known finding F3). Tie: tr_strings.py (templates, tables, pinned regex sources and tokenizer "
     "statement order) + correspondence inside Coq: printer char by char, tokenizer and full parser on printed strings, strings "
     "printed by sympy, character-level mutations and a malformed list; oracle: print -> AGraph(equation=) -> evaluate with and "
     "without simplification, AGraph(equation=str(sympy expr)) vs sympy.lambdify.",
